@@ -35,6 +35,19 @@ impl Ctx {
             thorough
         }
     }
+    /// Record a violation, unless a committed open finding explains its signature
+    /// (then it is only tallied and the workload goes on).
+    pub fn report(&self, st: &mut Stats, check: &str, sig: String, detail: String, case: Value) {
+        if let Some(f) = self
+            .findings
+            .iter()
+            .find(|f| f.status == "open" && f.explains(&sig))
+        {
+            st.count(&format!("known_hit.{}", f.id));
+        } else {
+            st.violation(check, sig, detail, case);
+        }
+    }
     /// the switches of clean-room alternative `k` (cases rotate over the alternatives)
     pub fn avoid_alt(&self, k: u64) -> Vec<&str> {
         if self.avoid.is_empty() {
